@@ -36,13 +36,14 @@ func init() {
 		Explanation: "Decides, for every schedule at once, structural necessary conditions of the message pipeline from the type-checked SSA of /repo. " +
 			"(D1) no silent drop: in the consumer loop (the loop around SimpleQueue.WaitForItem) every path from a received item to the next iteration passes an Emit of a *GroupMessageEvent, a PriorityQueue.Add (park) or a SimpleQueue.Add (re-queue) of that item, the only excused path being the nil result of the per-sender cache lookup when that lookup returns nil only after crypto.UnmarshalEd25519PublicKey failed; no return is reachable once an item was received (except on a cancelled context); the store-event subscriber hands the entry of EventWrite and every element of EventReplicated.Entries (no narrowing slice, no break, no skip) to the enqueue function, whose success returns all pass SimpleQueue.Add. " +
 			"(D2) every call of SecretStore.RegisterChainKey outside the secret store is followed, on every path from its nil-error side to the function exit or the next loop iteration, by a call of the release function with Raw() of the very key that was registered (the error side of Raw() is excused). " +
-			"(D3) park/flag atomicity: the key-known flag is written by the release function under a lock K (and the drain follows that write or runs under K); a park that is decided on a read of the flag (or of IsChainKeyKnownForDevice) saying 'unknown' is performed with K held continuously since that read, or is followed on every path by a call of the release function; otherwise a registration can run between read and park, find the device queue empty, and the item stays parked. " +
+			"(D3) park/flag atomicity: the key-known flag is written by the release function under a lock K (and the drain follows that write or runs under K); a park that is decided on a read of the flag (or of IsChainKeyKnownForDevice) saying 'unknown' is performed with K held continuously since that read, or is followed on every path by a call of the release function; otherwise a registration can run between read and park, find the device queue empty, and the item stays parked; likewise every other write of the flag (the initial value of a device cache that is created and published) is computed from a key-knowledge read made with K held and K stays held from that read to the write and to the publication of the new cache (a constant 'unknown' is a violation, a constant 'known' is harmless), otherwise a registration running in between finds no cache and the cache is born saying 'unknown' for good. " +
 			"(D4) the release function drains the device queue completely (NextAll, or Next inside a loop): one Next() outside any loop hands over only the lowest counter, which is exactly the message sealed before the announcement and never opens. " +
 			"(D5) after a successful open the consumer drains the device queue completely before the next iteration, and every item popped from a device queue (Next, NextAll callback) is put on the main queue on every path, the callback never returning an error (NextAll stops and the popped item is lost). " +
+			"D1 counts PriorityQueue.Add / SimpleQueue.Add as dispositions on the strength of C15 (D1/D4/D6: Add makes the item visible unconditionally, e.g. never returns without heap.Push); a queue that skips items is reported there, not here. " +
 			"Not decided: delivery under all interleavings as such (only the lock-set and path conditions above), 'not more than once per arrival', quiescence, the wake-up of WaitForItem (C15), that parked messages which fail to open for a transient reason are retried without a later message of the same sender, and that callees never release a lock acquired by their caller.",
 		Trusted:     []string{"go/ssa (x/tools v0.29.0), go/types", "sync.RWMutex semantics", "lock identity by owner type + field (one cache mutex per message store)", "queue.PriorityQueue / queue.SimpleQueue behave as C15 decides"},
 		Assumptions: []string{"the release function and RegisterChainKey are only reached through the module call sites analysed here", "a function does not release a lock that its caller acquired"},
-		Floors:      map[string]int{"D1": 4, "D2": 2, "D3": 3, "D4": 1, "D5": 2},
+		Floors:      map[string]int{"D1": 4, "D2": 2, "D3": 4, "D4": 1, "D5": 2},
 		Run:         runC08,
 	})
 }
@@ -1729,6 +1730,222 @@ func (a *c08an) d3() {
 			c.fail("D3", k, v.pos, "%s", v.msg)
 		}
 	}
+	if len(a.lockCls) > 0 {
+		a.d3FlagInit()
+	}
+}
+
+// c08AliasesOf: v is al itself, or a load of a local variable into which al was stored.
+func c08AliasOf(v ssa.Value, al ssa.Value) bool {
+	v = stripConv(v)
+	if v == al {
+		return true
+	}
+	switch x := v.(type) {
+	case *ssa.UnOp:
+		if x.Op != token.MUL {
+			return false
+		}
+		loc, ok := x.X.(*ssa.Alloc)
+		if !ok || loc.Referrers() == nil {
+			return false
+		}
+		for _, r := range *loc.Referrers() {
+			if st, ok := r.(*ssa.Store); ok && st.Addr == ssa.Value(loc) && stripConv(st.Val) == al {
+				return true
+			}
+		}
+	case *ssa.Phi:
+		for _, e := range x.Edges {
+			if stripConv(e) == al {
+				return true
+			}
+		}
+	}
+	return false
+}
+
+// c08Publications: the instructions of fn that make object al reachable from shared state
+// (map insertion, store into a field / element / global); returned reports whether al is
+// (also) handed to the caller.
+func c08Publications(fn *ssa.Function, al ssa.Value) (pubs []ssa.Instruction, returned bool) {
+	for _, b := range fn.Blocks {
+		for _, in := range b.Instrs {
+			switch x := in.(type) {
+			case *ssa.MapUpdate:
+				if c08AliasOf(x.Value, al) {
+					pubs = append(pubs, in)
+				}
+			case *ssa.Store:
+				if !c08AliasOf(x.Val, al) {
+					continue
+				}
+				if loc, ok := x.Addr.(*ssa.Alloc); ok && !loc.Heap {
+					continue // a local variable
+				}
+				if loc, ok := x.Addr.(*ssa.Alloc); ok && loc.Heap {
+					continue // a captured local: not modelled as publication
+				}
+				pubs = append(pubs, in)
+			case *ssa.Return:
+				for _, r := range retResults(x) {
+					if c08AliasOf(r, al) {
+						returned = true
+					}
+				}
+			}
+		}
+	}
+	return
+}
+
+// d3FlagInit (extension of D3): every write of the key-known flag outside the release
+// function - in particular the initial value given to a device cache that is created and
+// published - is computed from a knowledge read made with K held, and K stays held from that
+// read to the write and to the publication of the object. Otherwise a registration plus
+// release can run in between, find no device cache and do nothing; the cache then says
+// 'unknown' although the key is known, the message is parked and nothing releases it.
+func (a *c08an) d3FlagInit() {
+	c := a.c
+	n := 0
+	for _, fn := range a.w.ModFuncs {
+		if !c08InRoot(fn) || a.relScope[fn] {
+			continue
+		}
+		for _, b := range fn.Blocks {
+			for _, in := range b.Instrs {
+				st, ok := in.(*ssa.Store)
+				if !ok {
+					continue
+				}
+				fa, ok := st.Addr.(*ssa.FieldAddr)
+				if !ok {
+					continue
+				}
+				fv := c08FieldVar(fa)
+				if fv == nil || !a.flags[fv] {
+					continue
+				}
+				n++
+				c.analysed(fn)
+				construct := fnName(fn) + "+flag init"
+				if n > 1 {
+					construct = fmt.Sprintf("%s#%d", construct, n)
+				}
+				lock := a.lockCls[0]
+				// where the written value comes from: this function, or (a parameter) its callers
+				type source struct {
+					val ssa.Value
+					at  ssa.Instruction // the store, or the call site that passes the value
+				}
+				srcs := []source{{st.Val, st}}
+				if par, isPar := st.Val.(*ssa.Parameter); isPar {
+					srcs = nil
+					for i, fp := range fn.Params {
+						if fp != par {
+							continue
+						}
+						for _, cs := range a.w.callGraph().callers[fn] {
+							if call, ok := cs.Instr.(*ssa.Call); ok && c08InRoot(cs.Caller) && i < len(call.Common().Args) {
+								srcs = append(srcs, source{call.Common().Args[i], call})
+							}
+						}
+					}
+				}
+				// the object: fresh (then it must be published under the same critical section) or existing
+				var fresh ssa.Value
+				if al, ok := fa.X.(*ssa.Alloc); ok {
+					fresh = al
+				}
+				type pubSite struct{ site, pub ssa.Instruction } // site: call site of fn when pub is in the caller
+				var pubs []pubSite
+				if fresh != nil {
+					ps, returned := c08Publications(fn, fresh)
+					for _, p := range ps {
+						pubs = append(pubs, pubSite{nil, p})
+					}
+					if len(ps) == 0 && returned {
+						for _, cs := range a.w.callGraph().callers[fn] {
+							call, ok := cs.Instr.(*ssa.Call)
+							if !ok || !c08InRoot(cs.Caller) {
+								continue
+							}
+							for i := 0; i < fn.Signature.Results().Len(); i++ {
+								if rv := resultValue(call, i); rv != nil {
+									cp, _ := c08Publications(cs.Caller, rv)
+									for _, p := range cp {
+										pubs = append(pubs, pubSite{call, p})
+									}
+								}
+							}
+						}
+					}
+					if len(pubs) == 0 {
+						c.undecided("D3", construct, st.Pos(), "the new object whose flag %s is initialised here is not published (map insertion / field store) in this function nor by its direct callers: shape not modelled", fv.Name())
+						continue
+					}
+				}
+				bad, und, note := "", "", ""
+				if len(srcs) == 0 {
+					und = "the value written into flag " + fv.Name() + " is a parameter of a function without root-package callers"
+				}
+				for _, src := range srcs {
+					if bv, isC := constBool(src.val); isC {
+						if !bv {
+							bad = fmt.Sprintf("flag %s is set to 'unknown' (%s) without asking SecretStore.IsChainKeyKnownForDevice: when the chain key was registered before (the release function found no device cache and did nothing) the messages of this device are parked and nothing releases them", fv.Name(), c08Line(c, src.at))
+						} else {
+							note = "constant 'known'"
+						}
+						continue
+					}
+					reads := a.knownReads(src.val, 0)
+					if len(reads) == 0 {
+						und = fmt.Sprintf("the value written into flag %s (%s) is not a key-knowledge read this rule models", fv.Name(), c08Line(c, src.at))
+						continue
+					}
+					for _, d := range reads {
+						// read -> write (or -> the call that carries the value to the write)
+						okW := a.atomic(d, src.at)
+						if okW && src.at != ssa.Instruction(st) {
+							_, okW = a.holdsK(st) // inside the callee: the lock of its callers
+						}
+						if !okW {
+							bad = fmt.Sprintf("the value of flag %s comes from the key-knowledge read at %s, which is not made with %s held continuously up to the write at %s", fv.Name(), c08Line(c, d), lock, c08Line(c, st))
+							break
+						}
+						for _, p := range pubs {
+							okP := false
+							switch {
+							case p.pub.Parent() == d.Parent():
+								okP = a.atomic(d, p.pub)
+							case p.site != nil: // read in fn, publication in the caller
+								_, held := a.holdsK(d)
+								okP = held && a.atomic(p.site, p.pub)
+							default: // read in the caller, publication in fn
+								_, okP = a.holdsK(p.pub)
+							}
+							if !okP {
+								bad = fmt.Sprintf("the initial value of flag %s comes from the key-knowledge read at %s, but %s is not held continuously from that read to the publication of the new device cache at %s", fv.Name(), c08Line(c, d), lock, c08Line(c, p.pub))
+							}
+						}
+					}
+				}
+				switch {
+				case bad != "" && strings.Contains(bad, "is set to 'unknown'"):
+					c.fail("D3", construct, st.Pos(), "%s", bad)
+				case bad != "":
+					c.fail("D3", construct, st.Pos(), "%s: a RegisterChainKey + %s running in between finds no device cache (or an empty one) and does nothing; the flag then says 'unknown' although the key is known, the message is parked and nothing releases that device again", bad, c08ReleaseName)
+				case und != "":
+					c.undecided("D3", construct, st.Pos(), "%s", und)
+				case note != "":
+					c.ok("D3", construct, st.Pos(), "flag %s initialised to 'known': at worst an open fails and the message is parked as after any failed open, the release function still drains it", fv.Name())
+				default:
+					c.ok("D3", construct, st.Pos(), "flag %s is written from a key-knowledge read made with %s held, kept until the write and the publication of the object (%d publication site(s))", fv.Name(), lock, len(pubs))
+				}
+			}
+		}
+	}
+	c.count("flag_init_sites", n)
 }
 
 func (a *c08an) isLoopFn(f *ssa.Function) bool {
